@@ -78,7 +78,9 @@ static const Fault FAULTS[] = {
     {"call-of-non-function", 1, " + g(1)"}, {"bad-array-index", 1, " + arr[c]"}, {"empty-label", 0, " "}, {"double-operator", 1, " * / 2"}, {"side-effect", 1, " + (g = 1)"}, {"exists-dynamic-unknown", 2, "(exists (p : Nope)(true)) + "},
     {"sum-over-struct", 2, "(sum (i : chan) 1) + "}, {"overflowing-literal", 1, " + 20000000000"}, {"overflowing-literal-first", 2, "4294967296 + "},
     // the fault sits inside the body of a quantifier whose binder has the name of a variable other labels use: a scope left open would capture them
-    {"broken-forall-body", 3, "forall (g : int[0,1]) |  >"}, {"broken-exists-body", 3, "exists (h : int[0,1]) (| +"}, {"broken-sum-body", 3, "1 + sum (g : id_t) | ) ]"}};
+    {"broken-forall-body", 3, "forall (g : int[0,1]) |  >"}, {"broken-exists-body", 3, "exists (h : int[0,1]) (| +"}, {"broken-sum-body", 3, "1 + sum (g : id_t) | ) ]"},
+    // type errors reported on nodes of further kinds (each node must carry the position of its own text)
+    {"inline-if-over-a-channel", 2, "(c ? 1 : 2) + "}, {"inline-if-with-incompatible-branches", 1, " + (g > 0 ? x : c)"}, {"field-of-a-non-struct", 1, " + g.f"}, {"index-of-a-non-array", 1, " + h[1]"}};
 static const int NFAULTS = sizeof FAULTS / sizeof FAULTS[0];
 static void apply_fault(std::string& lt, const Fault& f)
 {
@@ -98,7 +100,7 @@ static std::string parse_and_dump(MModel& m, const Site* mask, Document& doc, bo
     return dump_document(doc, o);
 }
 
-extern "C" void harness_label_faults()  /* vf: bounds=13_label_sites_in_2_templates(invariant,rate,guard,synchronisation,update,probability)_x_21_faults(syntactic_and_semantic,incl._faults_inside_quantifier_bodies) reach=end */
+extern "C" void harness_label_faults()  /* vf: bounds=13_label_sites_in_2_templates(invariant,rate,guard,synchronisation,update,probability)_x_25_faults(syntactic_and_semantic,incl._faults_inside_quantifier_bodies) reach=end */
 {
     int si = vf_pick("!site", NSITES), fi = vf_pick("!fault", NFAULTS);
     const Site& s = SITES[si]; const Fault& f = FAULTS[fi];
